@@ -184,6 +184,12 @@ def run_many(jobs: list[dict], parallel: int = 16) -> list[TLCResult]:
 def judge_shards(module: str, cfg_text: str, events: list, *, shard: int = 3000, parallel: int = 16,
                  env: dict | None = None, timeout: int = 1800, heap="2g", extra_files: dict | None = None) -> list[TLCResult]:
     """Write events as ndjson shards and run the judge module on each (workers 1)."""
+    ncorrupt = int(os.environ.get("VERIF_CORRUPT") or 0)
+    if ncorrupt:
+        # ./check selftest: damage one recorded field in each of the first n events (the judge must reject them)
+        from harness import selftest
+
+        events = [selftest.corrupt(module, ev) if k < ncorrupt else ev for k, ev in enumerate(events)]
     wd = scratch("judge")
     try:
         jobs = []
